@@ -61,6 +61,17 @@ def r1_tag_injective(c, facts):
     c.extra['parser_tags'] = tags
 
 
+def memo_total(c, R, fn, pb, pt, ch):
+    """every path from the production call to the return stores the result: failures are memoised like successes"""
+    start = pt['target']
+    stores = [b for b, _ in ch]
+    reach = fn.reachable_from(start, avoid=stores)
+    if any(fn.mir['blocks'][b]['term']['t'] == 'return' for b in reach):
+        c.bad(R, 'memoize-store-skipped', 'memoize can return a production result without storing it (e.g. only successes are cached): failed alternatives are re-parsed at every enclosing level and parsing becomes exponential in the nesting depth of an erroneous input')
+    else:
+        c.ok(R, {'store': 'on every path after the production ran (failures included)'})
+
+
 def r2_same_key(c, facts):
     R = c.rule('C12.R2', 'SAME-KEY: lookup and store use the same (tag, cursor); the stored value is the returned one')
     fn = c.anchor(R, 'oal_model::grammar::memoize')
@@ -99,6 +110,7 @@ def r2_same_key(c, facts):
             c.bad(R, 'memoize-stores-other-value', 'the value stored in the memo table is not the value returned for the miss')
         if fn.dominates(pb, ch[0][0]):
             c.ok(R, {'store': 'after the production ran'})
+        memo_total(c, R, fn, pb, pt, ch)
     # key construction in cache / lookup
     keys = {}
     for q, callee in (('oal_model::grammar::Context::cache', 'HashMap::insert'), ('oal_model::grammar::Context::lookup', 'HashMap::get')):
